@@ -107,6 +107,7 @@ func (s *stream) ReassemblyComplete(ac reassembly.AssemblerContext) bool {
 }
 
 type harness struct {
+	t0     time.Time // start time of the current history: time never goes backwards on a recycled instance
 	pool   *reassembly.StreamPool
 	asm    *reassembly.Assembler
 	cur    *hist
@@ -137,11 +138,16 @@ type actx struct{ ci gopacket.CaptureInfo }
 
 func (a *actx) GetCaptureInfo() gopacket.CaptureInfo { return a.ci }
 
-var t0 = time.Unix(1_000_000, 0)
+var epoch = time.Unix(1_000_000, 0)
 
 func (h *harness) run(cfg config, alpha []tm.Event, seq []int) (hs *hist) {
 	hs = &hist{dir: tm.NewDir(h.n), keep: cfg.keep}
 	h.cur = hs
+	if h.t0.IsZero() {
+		h.t0 = epoch
+	}
+	h.t0 = h.t0.Add(time.Duration(len(seq)+3) * time.Second)
+	t0 := h.t0
 	h.asm.MaxBufferedPagesPerConnection = cfg.perConn
 	h.asm.MaxBufferedPagesTotal = cfg.total
 	h.ctr++
@@ -249,6 +255,18 @@ func main() {
 		pprof.StartCPUProfile(f)
 		defer pprof.StopCPUProfile()
 	}
+	var curCfg config
+	var hangLocals []*report.Local
+	statex.OnHang = func(seq []int) {
+		r.Violation("hang|a history does not terminate", fmt.Sprintf("no progress for %v on one history; %s", statex.HangAfter, curCfg), 0, describe(curCfg, alpha, seq, n))
+		for _, l := range hangLocals {
+			r.MergeLocal(l)
+		}
+		r.Exhaustive = false
+		r.Coverage["states"], r.Coverage["transitions"], r.Coverage["traces_validated_against_impl"] = 1, 1, 0
+		r.Coverage["samples"] = []any{describe(curCfg, alpha, seq, n)}
+		r.Finish()
+	}
 	workers := runtime.NumCPU()
 	hs := make([]*harness, workers)
 	for i := range hs {
@@ -263,12 +281,14 @@ func main() {
 	for i := range locals {
 		locals[i] = report.NewLocal()
 	}
+	hangLocals = locals
 	deliveries := make([]int64, workers)
 	strict := make([]int64, workers)
 	for _, isn := range isns {
 		for _, lim := range limits {
 			for _, keep := range keeps {
 				cfg := config{isn, lim[0], lim[1], keep}
+				curCfg = cfg
 				local := make([]map[string]struct{}, workers)
 				for i := range local {
 					local[i] = map[string]struct{}{}
